@@ -23,6 +23,7 @@ mod rng;
 mod settings;
 mod rngs;
 mod sorts;
+mod tsplit;
 mod strains;
 mod sv;
 
@@ -49,6 +50,7 @@ fn main() {
         "banana" => nop::banana_main(arg(&args, 2, 0), arg(&args, 3, 100)),
         "sorts" => sorts::main(arg(&args, 2, 0), arg(&args, 3, 100)),
         "rngs" => rngs::main(arg(&args, 2, 0), arg(&args, 3, 100)),
+        "tsplit" => tsplit::main(arg(&args, 2, 0), arg(&args, 3, 100)),
         "psplit" => psplit::main(arg(&args, 2, 0), arg(&args, 3, 100)),
         "fin" => fin::main(arg(&args, 2, 0), arg(&args, 3, 100), arg(&args, 4, 30)),
         "gperf" => gperf::main(arg(&args, 2, 0), arg(&args, 3, 100), arg(&args, 4, 40)),
